@@ -123,9 +123,10 @@ def discharge(obls, timeout_ms=60000, second_solver=False, quick_ms=4000):
 
     rest = run(_solve_z3py, "z3-5.1.0", todo, quick_ms, "recent")
     rest = run(_solve_z3cli, "z3-4.8.12", rest, quick_ms, "all")
-    rest = run(_solve_z3py, "z3-5.1.0", rest, quick_ms, "recent:20")
-    rest = run(_solve_z3py, "z3-5.1.0", rest, quick_ms, "recent:50")
-    rest = run(_solve_z3py, "z3-5.1.0", rest, quick_ms, "entry+recent")
+    for variant in ("recent:20", "recent:50", "entry+recent"):
+        rest = run(_solve_z3py, "z3-5.1.0", rest, quick_ms, variant)
+        rest = run(_solve_z3cli, "z3-4.8.12", rest, quick_ms, variant)
+    rest = run(_solve_z3cli, "z3-4.8.12", rest, quick_ms, "recent")
     rest = run(_solve_z3py, "z3-5.1.0", rest, quick_ms, "all")
     rest = run(_solve_z3cli, "z3-4.8.12", rest, min(timeout_ms, 30000), "all")
     if timeout_ms > quick_ms:
